@@ -88,6 +88,7 @@ def analyse(text):
     if r.capped:
         return None
     kinds = {t.line_no: t.kind for t in r.tokens if not t.eof}
+    dialects = {t.line_no: t.dialect for t in r.tokens if not t.eof}
     states = dict(r.states)
     lines = text.split('\n')
     if lines and lines[-1] == '':
@@ -95,7 +96,13 @@ def analyse(text):
         final_nl = True
     else:
         final_nl = text.endswith('\n')
-    return {'lines': lines, 'kinds': kinds, 'states': states, 'final_nl': final_nl, 'rejected': r.status != 'ok'}
+    # lines reported as unexpected have no delivered kind: classify them by their own kind (they are outside doc strings by construction)
+    unexpected = {}
+    for ln in r.unexpected:
+        if 1 <= ln <= len(lines):
+            prev = [dialects[k] for k in sorted(dialects) if k < ln]
+            unexpected[ln] = M.own_kind(lines[ln - 1] + '\n', prev[-1] if prev else 'en', None)
+    return {'lines': lines, 'kinds': kinds, 'states': states, 'final_nl': final_nl, 'rejected': r.status != 'ok', 'unexpected': unexpected}
 
 
 _TABLE = None
@@ -192,6 +199,19 @@ def check_document(text, acc, origin):
         compare('final-newline', text[:-1] if text.endswith('\n') else text + '\n', base, 'end', ast_only=True)
         if text.endswith('\r\n'):
             compare('final-newline', text[:-2], base, 'end', ast_only=True)
+    # unexpected lines that are keyword / step / tag / row / delimiter lines by their own kind: trailing blanks change nothing,
+    # extra indentation changes only the columns reported on that line
+    for i, k in sorted(an['unexpected'].items()):
+        if k not in STRUCT:
+            continue
+        raw = lines[i - 1]
+        cr = '\r' if raw.endswith('\r') else ''
+        core_line = raw[:-1] if cr else raw
+        for add in (' ', '\t '):
+            compare('trailing-blanks', join(lines[:i - 1] + [core_line + add + cr] + lines[i:], an['final_nl']), base, i)
+        if k != 'DocStringSeparator':
+            exp = map_result(base, fcol=lambda l, c, i=i: c + 2 if l == i else c)
+            compare('indentation', join(lines[:i - 1] + ['  ' + raw] + lines[i:], an['final_nl']), exp, i)
     # trailing blanks / indentation / comment-before per structural line
     struct = [i for i in range(1, nl + 1) if kinds.get(i) in STRUCT]
     for i in struct:
